@@ -565,34 +565,36 @@ Proof. intros attrs k. apply validate_first_unfitted, fit_validate_first_ok. Qed
 (* ... and it is rejected exactly when one of the checks fails, accepted with every attribute written otherwise *)
 Lemma fit_validate_first_outcome : forall attrs k,
   run (fit_validate_first attrs k) [] =
-  if params_ok k && x_ok k && groups_ok k && cross_ok k && affinity_ok k then (true, rev attrs) else (false, []).
+  if params_ok k && x_ok k && samples_ok k && groups_ok k && cross_ok k && affinity_ok k then (true, rev attrs) else (false, []).
 Proof.
-  intros attrs [p x g c a]. unfold fit_validate_first. simpl.
-  destruct p, x, g, c, a; simpl; try reflexivity.
+  intros attrs [p x m g c a]. unfold fit_validate_first. simpl.
+  destruct p, x, m, g, c, a; simpl; try reflexivity.
   rewrite (no_check_accepts (writes attrs) [] (writes_no_check attrs)). unfold writes. rewrite map_map, map_id, app_nil_r. reflexivity.
 Qed.
 
 (* the code as it is: a fit rejected by the hyper-parameter or data checks of DiscriminativeModel.fit / Kauri.fit has
    written nothing; one rejected by the later cross-parameter rule has written n_features_in_ only *)
-Lemma fit_base_early_rejection : forall w k, params_ok k && x_ok k = false -> run (fit_base w k) [] = (false, []).
-Proof. intros w [p x g c a] H. simpl in H. unfold fit_base. simpl. destruct p, x; try discriminate; reflexivity. Qed.
-Lemma fit_base_cross_rejection : forall w k, params_ok k = true -> x_ok k = true -> cross_ok k = false ->
+Lemma fit_base_early_rejection : forall w k, params_ok k && x_ok k && samples_ok k = false -> run (fit_base w k) [] = (false, []).
+Proof. intros w [p x m g c a] H. simpl in H. unfold fit_base. simpl. destruct p, x, m; try discriminate; reflexivity. Qed.
+Lemma fit_base_cross_rejection : forall w k, params_ok k = true -> x_ok k = true -> samples_ok k = true -> cross_ok k = false ->
   run (fit_base w k) [] = (false, ["n_features_in_"%string]).
-Proof. intros w [p x g c a] Hp Hx Hc. simpl in *. subst. reflexivity. Qed.
+Proof. intros w [p x m g c a] Hp Hx Hm Hc. simpl in *. subst. reflexivity. Qed.
 Lemma fit_kauri_rejection : forall k, fst (run (fit_kauri k) []) = false -> incl (snd (run (fit_kauri k) [])) ["n_features_in_"%string].
 Proof.
-  intros [p x g c a]. unfold fit_kauri. simpl. destruct p, x, c, a; simpl; intros H; try discriminate; intros y Hy; try contradiction; exact Hy.
+  intros [p x m g c a]. unfold fit_kauri. simpl. destruct p, x, m, c, a; simpl; intros H; try discriminate; intros y Hy; try contradiction; exact Hy.
 Qed.
 (* ... but validation does not always come first: three rejected fits that leave attributes behind *)
-Definition all_ok : checks := {| params_ok := true; x_ok := true; groups_ok := true; cross_ok := true; affinity_ok := true |}.
+Definition all_ok : checks := {| params_ok := true; x_ok := true; samples_ok := true; groups_ok := true; cross_ok := true; affinity_ok := true |}.
+Definition bad_affinity : checks := {| params_ok := true; x_ok := true; samples_ok := true; groups_ok := true; cross_ok := true; affinity_ok := false |}.
+Definition bad_params : checks := {| params_ok := false; x_ok := true; samples_ok := true; groups_ok := true; cross_ok := true; affinity_ok := true |}.
+Definition bad_samples : checks := {| params_ok := true; x_ok := true; samples_ok := false; groups_ok := true; cross_ok := true; affinity_ok := true |}.
 Lemma fit_asis_leaves_attributes :
   (* a missing / unusable affinity is found after the weights and the optimiser were created *)
-  run (fit_base ["W_"; "b_"]%string {| params_ok := true; x_ok := true; groups_ok := true; cross_ok := true; affinity_ok := false |}) []
-    = (false, ["optimiser_"; "b_"; "W_"; "n_features_in_"]%string) /\
-  (* the sparse models validate their hyper-parameters after storing groups_ *)
-  run (fit_sparse ["W_"; "b_"]%string {| params_ok := false; x_ok := true; groups_ok := true; cross_ok := true; affinity_ok := true |}) []
-    = (false, ["groups_"; "n_features_in_"]%string) /\
+  run (fit_base ["W_"; "b_"]%string bad_affinity) [] = (false, ["optimiser_"; "b_"; "W_"; "n_features_in_"]%string) /\
+  (* the sparse models validate their hyper-parameters and the number of samples after storing groups_ *)
+  run (fit_sparse ["W_"; "b_"]%string bad_params) [] = (false, ["groups_"; "n_features_in_"]%string) /\
+  run (fit_sparse ["W_"; "b_"]%string bad_samples) [] = (false, ["groups_"; "n_features_in_"]%string) /\
   (* KernelRIM stores the data and the kernel first *)
-  run (fit_kernelrim {| params_ok := false; x_ok := true; groups_ok := true; cross_ok := true; affinity_ok := true |}) []
-    = (false, ["training_kernel_"; "input_data_"]%string).
+  run (fit_kernelrim bad_params) [] = (false, ["training_kernel_"; "input_data_"]%string) /\
+  run (fit_kernelrim bad_samples) [] = (false, ["training_kernel_"; "input_data_"]%string).
 Proof. repeat split. Qed.
